@@ -524,6 +524,18 @@ Section InvA.
     destruct Hop as [-> | ->]; simpl; auto.
   Qed.
 
+  Lemma thread_top_ok tr s i r l0 :
+    InvA sc tr s -> s_thr s i = (r :: l0, RCalled) ->
+    top_ok (sc_uid sc) (sc_decl sc) (reg_of sc tr) (top_of r).
+  Proof.
+    intros HA E0. pose proof HA as [Hrel Hsub Hdecl Hthr Hfresh Hpend].
+    destruct r as [h|h|c|]; simpl; auto.
+    - split.
+      + intros Hi. apply (Hfresh i h); [rewrite E0; simpl; auto|auto].
+      + apply declared_cmd_ok. eapply thread_op_declared; eauto.
+    - apply declared_cmd_ok. eapply thread_op_declared; eauto.
+  Qed.
+
   Lemma invA_step tr s a s' : InvA sc tr s -> step sc s a = Some s' -> InvA sc (tr ++ [a]) s'.
   Proof.
     intros HA Hst.
@@ -1054,3 +1066,339 @@ Section Theorems.
     apply in_app_iff in Ho as [Ho|[Ho|[]]]; [eauto|discriminate].
   Qed.
 End Theorems.
+
+Section Removed.
+  Variable sc : scenario.
+  Hypothesis Hwf : wf_sc sc.
+  Notation decl := (sc_decl sc).
+
+  (* handler ids are never reused: a handler that was registered and is gone stays gone *)
+  Lemma removed_stays t2 : forall t1 s h,
+    exec sc (init sc) (t1 ++ t2) = Some s ->
+    In h (added sc t1) -> ~ In h (reg_of sc t1) ->
+    In h (added sc (t1 ++ t2)) /\ ~ In h (reg_of sc (t1 ++ t2)).
+  Proof.
+    induction t2 as [|a t2 IH] using rev_ind; intros t1 s h Hrun Ha Hr.
+    - rewrite app_nil_r. auto.
+    - rewrite app_assoc in Hrun |- *. apply exec_snoc in Hrun as [s1 [H1 Hst]].
+      destruct (IH t1 s1 h H1 Ha Hr) as [Ha' Hr']. split; [apply added_mono; exact Ha'|].
+      rewrite reg_of_snoc. intros Hi. destruct a; simpl in Hi; auto.
+      + (* ALin *)
+        apply sp_apply_sub in Hi as [Hi|Hi]; [auto|].
+        destruct op; simpl in Hi; try discriminate. inversion Hi. subst h0.
+        destruct (inv_run sc Hwf _ _ H1) as [HA _].
+        unfold step in Hst. destruct (s_crashed s1); [discriminate|].
+        destruct (s_thr s1 i) as [[|r l0] [| |res']] eqn:E0; try discriminate.
+        destruct (rop_eqb (RAdd h) r) eqn:E3; [|discriminate].
+        apply rop_eqb_eq in E3. subst r.
+        apply (a_fresh _ _ _ HA i h); [rewrite E0; simpl; auto|exact Ha'].
+      + apply sp_remove_sub in Hi. auto.
+  Qed.
+
+  Lemma removed_no_spawn t2 : forall t1 s n h,
+    exec sc (init sc) (t1 ++ t2) = Some s ->
+    In h (added sc t1) -> ~ In h (reg_of sc t1) ->
+    spawned sc (t1 ++ t2) n h = spawned sc t1 n h.
+  Proof.
+    induction t2 as [|a t2 IH] using rev_ind; intros t1 s n h Hrun Ha Hr.
+    - rewrite app_nil_r. reflexivity.
+    - rewrite app_assoc in Hrun |- *. apply exec_snoc in Hrun as [s1 [H1 Hst]].
+      rewrite spawned_snoc, (IH t1 s1 n h H1 Ha Hr).
+      destruct (removed_stays t2 t1 s1 h H1 Ha Hr) as [_ Hr'].
+      assert (mem_id h (reg_of sc (t1 ++ t2)) = false) as Hm.
+      { destruct (mem_id h (reg_of sc (t1 ++ t2))) eqn:E; [|reflexivity].
+        apply mem_id_in in E. contradiction. }
+      destruct a; simpl; try lia. rewrite Hm, Bool.andb_false_r. simpl. lia.
+  Qed.
+
+  (* C06_removed_silent: a handler that was registered and is no longer registered when
+     execLoop takes event n (removed by Remove, Clear, ClearAll, by its own AddTmp wrapper
+     or by its deadline goroutine) is not started for event n — in no schedule *)
+  Theorem removed_silent tr1 tr2 s n h :
+    exec sc (init sc) (tr1 ++ ADeliver n :: tr2) = Some s ->
+    In h (added sc tr1) -> ~ In h (reg_of sc tr1) ->
+    ~ In (AStart n h) (tr1 ++ ADeliver n :: tr2).
+  Proof.
+    intros Hrun Ha Hr Hin. apply is_start_in in Hin.
+    destruct (inv_run sc Hwf _ _ Hrun) as [_ HB].
+    pose proof (b_c1 _ _ _ HB n h) as Hc1.
+    rewrite (removed_no_spawn _ tr1 s n h Hrun Ha Hr) in Hc1.
+    apply exec_prefix in Hrun as [s1 [H1 H2]].
+    destruct (inv_run sc Hwf _ _ H1) as [_ HB1]. destruct (b_c3 _ _ _ HB1 n h) as [_ Hc3].
+    simpl in H2. destruct (step sc s1 (ADeliver n)) as [s2|] eqn:Est; [|discriminate].
+    unfold step in Est. destruct (s_crashed s1); [discriminate|].
+    destruct (s_disp s1) as [m| |] eqn:Ed; try discriminate.
+    destruct (Nat.eqb n m) eqn:En; simpl in Est; [|discriminate].
+    apply Nat.eqb_eq in En. subst m.
+    destruct (spawned sc tr1 n h) eqn:Es; [lia|].
+    destruct Hc3 as [k [_ Hk]]; [lia|]. simpl in Hk. lia.
+  Qed.
+End Removed.
+
+(* ---- invariant C: AddTmp wrappers, deadline goroutines, done channels, Remove results ------------ *)
+
+Definition is_end_true (h : N) (a : action) : bool :=
+  match a with AEnd _ h' (ORet true) => h' =? h | _ => false end.
+Definition is_lin_add (h : N) (a : action) : bool :=
+  match a with ALin _ (RAdd h') => h' =? h | _ => false end.
+
+Section GhostC.
+  Variable sc : scenario.
+  Notation decl := (sc_decl sc).
+
+  (* the Remove of a wrapper / deadline goroutine of h that found h registered *)
+  Definition rm_hit (h : N) (reg : list N) (a : action) : bool :=
+    match a with
+    | ATmpRemove h' => (h' =? h) && mem_id h reg && sp_ext decl h
+    | _ => false
+    end.
+
+  Definition rm_acc (h : N) (tr : list action) : list N * nat :=
+    fold_left (fun acc a => (reg_step sc (fst acc) a, (snd acc + if rm_hit h (fst acc) a then 1 else 0)%nat))
+              tr (reg0 sc, 0%nat).
+  Definition rm_ok (tr : list action) (h : N) : nat := snd (rm_acc h tr).
+
+  Lemma rm_acc_fst h tr : fst (rm_acc h tr) = reg_of sc tr.
+  Proof.
+    unfold rm_acc, reg_of. induction tr as [|a tr IH] using rev_ind; [reflexivity|].
+    rewrite !fold_left_app. simpl. rewrite IH. reflexivity.
+  Qed.
+
+  Lemma rm_ok_snoc tr a h :
+    rm_ok (tr ++ [a]) h = (rm_ok tr h + if rm_hit h (reg_of sc tr) a then 1 else 0)%nat.
+  Proof.
+    unfold rm_ok, rm_acc. rewrite fold_left_app. simpl. fold (rm_acc h tr).
+    rewrite rm_acc_fst. reflexivity.
+  Qed.
+
+  (* deadline goroutines of h started so far *)
+  Definition deadlines (tr : list action) (h : N) : nat :=
+    if hd_deadline (decl h)
+    then ((if mem_N h (sc_init sc) then 1 else 0) + cnt (is_lin_add h) tr)%nat else 0%nat.
+End GhostC.
+
+Record InvC (sc : scenario) (tr : list action) (s : state) : Prop := mkInvC {
+  c_closed : forall h, cnt (is_close h) tr = s_closed s h;
+  c_rm : forall h, rm_ok sc tr h = (s_toclose s h + s_closed s h)%nat;
+  c_once : forall h, (rm_ok sc tr h <= 1)%nat /\
+             ((0 < rm_ok sc tr h)%nat -> In h (added sc tr) /\ ~ In h (reg_of sc tr));
+  c_lin : forall i h rest, s_thr s i = (RRemove h :: rest, RLinned true) ->
+             In h (added sc tr) /\ ~ In h (reg_of sc tr);
+  c_pa : forall h, (0 < s_pend s h)%nat -> In h (added sc tr);
+  c_pend : forall h, hd_tmp (sc_decl sc h) = true ->
+             (cnt (is_end_true h) tr + deadlines sc tr h = s_pend s h + cnt (is_tmprm h) tr)%nat }.
+
+Section InvC.
+  Variable sc : scenario.
+  Hypothesis Hwf : wf_sc sc.
+  Notation decl := (sc_decl sc).
+
+  Lemma invC_init : InvC sc [] (init sc).
+  Proof.
+    constructor; unfold init; simpl; intros; auto.
+    - split; [unfold rm_ok; simpl; lia|]. unfold rm_ok. simpl. lia.
+    - discriminate.
+    - destruct (mem_N h (sc_init sc) && hd_deadline (decl h)) eqn:E; [|lia].
+      apply Bool.andb_true_iff in E as [E _]. apply mem_N_in in E. exact E.
+    - unfold deadlines, cnt. simpl.
+      destruct (hd_deadline (decl h)); destruct (mem_N h (sc_init sc)); simpl; lia.
+  Qed.
+
+  Lemma gone_step tr s a s' h :
+    exec sc (init sc) tr = Some s -> step sc s a = Some s' ->
+    In h (added sc tr) /\ ~ In h (reg_of sc tr) ->
+    In h (added sc (tr ++ [a])) /\ ~ In h (reg_of sc (tr ++ [a])).
+  Proof.
+    intros Hrun Hst [Ha Hr]. apply (removed_stays sc Hwf [a] tr s' h); auto.
+    apply exec_snoc. eauto.
+  Qed.
+
+  (* steps that do not touch threads, pending Remove calls or done channels *)
+  Lemma invC_frame tr s a s' :
+    exec sc (init sc) tr = Some s -> step sc s a = Some s' ->
+    InvC sc tr s ->
+    (forall i h rest, s_thr s' i = (RRemove h :: rest, RLinned true) ->
+                      exists rest0, s_thr s i = (RRemove h :: rest0, RLinned true)) ->
+    s_pend s' = s_pend s -> s_toclose s' = s_toclose s -> s_closed s' = s_closed s ->
+    (forall h, is_close h a = false /\ is_end_true h a = false /\ is_lin_add h a = false /\ is_tmprm h a = false) ->
+    (forall h reg, rm_hit sc h reg a = false) ->
+    InvC sc (tr ++ [a]) s'.
+  Proof.
+    intros Hrun Hst [Hcl Hrm Honce Hlin Hpa Hpend] Et Ep Etc Ec Hno Hhit.
+    constructor; rewrite ?Ep, ?Etc, ?Ec; intros.
+    - rewrite cnt_snoc. destruct (Hno h) as [-> _]. rewrite <- Hcl. lia.
+    - rewrite rm_ok_snoc, Hhit, <- Hrm. lia.
+    - rewrite rm_ok_snoc, Hhit, Nat.add_0_r. destruct (Honce h) as [H1 H2].
+      split; [exact H1|]. intros Hp. apply (gone_step tr s a s' h Hrun Hst). auto.
+    - apply (gone_step tr s a s' h Hrun Hst). destruct (Et i h rest H) as [rest0 H0]. eapply Hlin; eauto.
+    - apply added_mono. auto.
+    - unfold deadlines. rewrite !cnt_snoc. destruct (Hno h) as [_ [-> [-> ->]]].
+      specialize (Hpend h H). unfold deadlines in Hpend.
+      destruct (hd_deadline (decl h)); lia.
+  Qed.
+
+  Lemma invC_step tr s a s' :
+    exec sc (init sc) tr = Some s -> InvC sc tr s -> step sc s a = Some s' -> InvC sc (tr ++ [a]) s'.
+  Proof.
+    intros Hrun HC Hst. destruct (inv_run sc Hwf tr s Hrun) as [HA HB].
+    pose proof Hst as Hst'.
+    destruct a.
+    1-5,7: (apply (invC_frame tr s _ s' Hrun Hst' HC);
+            [step_inv Hst; eauto|step_inv Hst; reflexivity|step_inv Hst; reflexivity
+            |step_inv Hst; reflexivity|intros; simpl; auto|intros; reflexivity]).
+    - (* AEnd *)
+      assert (s_thr s' = s_thr s /\ s_toclose s' = s_toclose s /\ s_closed s' = s_closed s /\
+              s_pend s' = (if outcome_eqb o (ORet true) && hd_tmp (decl h)
+                           then upd1 (s_pend s) h (S (s_pend s h)) else s_pend s) /\
+              (0 < s_rn s n h)%nat) as [Et [Etc [Ec [Ep Ern]]]].
+      { unfold step in Hst. destruct (s_crashed s); [discriminate|].
+        destruct (Nat.ltb 0 (s_rn s n h)) eqn:Ern; [|discriminate]. apply Nat.ltb_lt in Ern.
+        destruct (is_bgh sc h).
+        - inversion Hst; subst; simpl. repeat split; auto.
+          destruct o as [[|]|]; simpl; auto.
+        - destruct (s_disp s); try discriminate. destruct (Nat.eqb n n0 && mem_N h out); [|discriminate].
+          inversion Hst; subst; simpl. repeat split; auto.
+          destruct o as [[|]|]; simpl; auto. }
+      destruct HC as [Hcl Hrm Honce Hlin Hpa Hpend].
+      constructor; rewrite ?Et, ?Etc, ?Ec, ?Ep; intros.
+      + rewrite cnt_snoc. simpl. rewrite <- Hcl. lia.
+      + rewrite rm_ok_snoc. simpl. rewrite <- Hrm. lia.
+      + rewrite rm_ok_snoc. simpl. rewrite Nat.add_0_r. destruct (Honce h0) as [H1 H2].
+        split; [exact H1|]. intros Hp. apply (gone_step tr s _ s' h0 Hrun Hst'). auto.
+      + apply (gone_step tr s _ s' h0 Hrun Hst'). eapply Hlin; eauto.
+      + apply added_mono. revert H.
+        destruct (outcome_eqb o (ORet true) && hd_tmp (decl h)); [|apply Hpa].
+        rewrite upd1_get. destruct (h0 =? h) eqn:Eh; [|apply Hpa].
+        apply N.eqb_eq in Eh. subst h0. intros _. apply (b_added _ _ _ HB n h). lia.
+      + unfold deadlines. rewrite !cnt_snoc. simpl (is_lin_add _ _). simpl (is_tmprm _ _).
+        specialize (Hpend h0 H). unfold deadlines in Hpend.
+        assert ((if is_end_true h0 (AEnd n h o) then 1 else 0) =
+                (if outcome_eqb o (ORet true) && hd_tmp (decl h) && N.eqb h0 h then 1 else 0))%nat as Hx.
+        { simpl. destruct o as [[|]|]; simpl; auto. rewrite (N.eqb_sym h h0).
+          destruct (h0 =? h) eqn:Eh; [|rewrite Bool.andb_false_r; reflexivity].
+          apply N.eqb_eq in Eh. subst h0. rewrite H. reflexivity. }
+        rewrite Hx. destruct (outcome_eqb o (ORet true) && hd_tmp (decl h)); simpl.
+        * rewrite upd1_get. destruct (h0 =? h) eqn:Eh.
+          -- apply N.eqb_eq in Eh. subst h0. destruct (hd_deadline (decl h)); lia.
+          -- destruct (hd_deadline (decl h0)); lia.
+        * destruct (hd_deadline (decl h0)); lia.
+    - (* ACall *)
+      apply (invC_frame tr s _ s' Hrun Hst' HC).
+      + unfold step in Hst. destruct (s_crashed s); [discriminate|].
+        destruct (s_thr s i) as [[|r l0] [| |res']] eqn:E0; try discriminate.
+        destruct (rop_eqb op r); [|discriminate]. inversion Hst; subst; clear Hst. simpl.
+        intros i1 h1 rest. unfold updt. destruct (Nat.eqb i1 i); [discriminate|eauto].
+      + step_inv Hst; reflexivity.
+      + step_inv Hst; reflexivity.
+      + step_inv Hst; reflexivity.
+      + intros; simpl; auto.
+      + intros; reflexivity.
+    - (* ALin *)
+      unfold step in Hst. destruct (s_crashed s); [discriminate|].
+      destruct (s_thr s i) as [[|r l0] [| |res']] eqn:E0; try discriminate.
+      destruct (rop_eqb op r) eqn:E3; [|discriminate].
+      destruct (apply_top (sc_uid sc) decl (s_tbl s) (top_of r)) as [t' res] eqn:E4.
+      inversion Hst; subst; clear Hst. apply rop_eqb_eq in E3. subst op.
+      pose proof (thread_top_ok sc Hwf tr s i r l0 HA E0) as Hok.
+      destruct (table_step _ decl (wf_uid sc Hwf) _ _ _ (a_rel _ _ _ HA) Hok) as [_ Hres].
+      rewrite E4 in Hres. simpl in Hres.
+      destruct HC as [Hcl Hrm Honce Hlin Hpa Hpend].
+      constructor; simpl; intros.
+      + rewrite cnt_snoc. simpl. rewrite <- Hcl. lia.
+      + rewrite rm_ok_snoc. simpl. rewrite <- Hrm. lia.
+      + rewrite rm_ok_snoc. simpl. rewrite Nat.add_0_r. destruct (Honce h) as [H1 H2].
+        split; [exact H1|]. intros Hp. apply (gone_step tr s _ _ h Hrun Hst'). auto.
+      + unfold updt in H. destruct (Nat.eqb i0 i) eqn:Ei.
+        * injection H as Hr _ Hrt. rewrite Hr in *. rewrite Hrt in Hres.
+          simpl in Hres. unfold sp_remove in Hres.
+          destruct (mem_id h (reg_of sc tr) && sp_ext decl h) eqn:Em; [|discriminate].
+          apply Bool.andb_true_iff in Em as [Em Ex]. apply mem_id_in in Em. split.
+          -- apply added_mono. apply (a_sub _ _ _ HA). exact Em.
+          -- rewrite reg_of_snoc. simpl. apply sp_remove_gone. exact Ex.
+        * apply (gone_step tr s _ _ h Hrun Hst'). eapply Hlin; eauto.
+      + revert H. destruct r as [h1|h1|c|]; try (intros; apply added_mono; auto; fail).
+        destruct (hd_deadline (decl h1)); [|intros; apply added_mono; auto].
+        rewrite upd1_get. destruct (h =? h1) eqn:Eh; [|intros; apply added_mono; auto].
+        apply N.eqb_eq in Eh. subst h. intros _. rewrite added_snoc. simpl. auto.
+      + unfold deadlines. rewrite !cnt_snoc. simpl (is_end_true _ _). simpl (is_tmprm _ _).
+        specialize (Hpend h H). unfold deadlines in Hpend.
+        destruct r as [h1|h1|c|]; simpl; try (destruct (hd_deadline (decl h)); lia).
+        rewrite (N.eqb_sym h1 h). destruct (h =? h1) eqn:Eh.
+        * apply N.eqb_eq in Eh. subst h1. destruct (hd_deadline (decl h)).
+          -- rewrite upd1_get, N.eqb_refl. lia.
+          -- lia.
+        * destruct (hd_deadline (decl h1)); [rewrite upd1_get, Eh|];
+            destruct (hd_deadline (decl h)); lia.
+    - (* ARet *)
+      apply (invC_frame tr s _ s' Hrun Hst' HC).
+      + unfold step in Hst. destruct (s_crashed s); [discriminate|].
+        destruct (s_thr s i) as [[|r l0] [| |res']] eqn:E0; try discriminate.
+        destruct (rop_eqb op r && Bool.eqb res res'); [|discriminate]. inversion Hst; subst; clear Hst. simpl.
+        intros i1 h1 rest. unfold updt. destruct (Nat.eqb i1 i); [discriminate|eauto].
+      + step_inv Hst; reflexivity.
+      + step_inv Hst; reflexivity.
+      + step_inv Hst; reflexivity.
+      + intros; simpl; auto.
+      + intros; reflexivity.
+    - (* ATmpRemove *)
+      unfold step in Hst. destruct (s_crashed s); [discriminate|].
+      destruct (Nat.ltb 0 (s_pend s h)) eqn:Ep; [|discriminate]. apply Nat.ltb_lt in Ep.
+      destruct (remove (s_tbl s) (reg_cuid (sc_uid sc) decl h)) as [t' ok] eqn:E1.
+      inversion Hst; subst; clear Hst.
+      assert (cmd_ok decl h) as Hc by (apply (wf_tmp_ok sc Hwf); apply (a_pend _ _ _ HA); auto).
+      destruct (wf_uid sc Hwf) as [U1 [U2 U3]].
+      destruct (rel_remove _ decl U1 U2 U3 _ _ h (a_rel _ _ _ HA) Hc) as [_ Hres].
+      rewrite E1 in Hres. simpl in Hres. unfold sp_remove in Hres.
+      destruct HC as [Hcl Hrm Honce Hlin Hpa Hpend].
+      constructor; simpl; intros.
+      + rewrite cnt_snoc. simpl. rewrite <- Hcl. lia.
+      + rewrite rm_ok_snoc. simpl. specialize (Hrm h0). destruct (h =? h0) eqn:Eh.
+        * apply N.eqb_eq in Eh. subst h0. simpl.
+          destruct (mem_id h (reg_of sc tr) && sp_ext decl h); simpl in Hres; subst ok.
+          -- rewrite upd1_get, N.eqb_refl. lia.
+          -- lia.
+        * simpl. destruct ok; [rewrite upd1_get, (N.eqb_sym h0 h), Eh|]; lia.
+      + rewrite rm_ok_snoc. simpl. destruct (Honce h0) as [H1 H2].
+        destruct ((h =? h0) && mem_id h0 (reg_of sc tr) && sp_ext decl h0) eqn:Ehit.
+        * apply Bool.andb_true_iff in Ehit as [Ehit Ex]. apply Bool.andb_true_iff in Ehit as [Eh Em].
+          apply N.eqb_eq in Eh. subst h0. apply mem_id_in in Em.
+          assert (rm_ok sc tr h = 0)%nat as Hz.
+          { destruct (rm_ok sc tr h); [reflexivity|]. destruct H2 as [_ H2]; [lia|]. contradiction. }
+          rewrite Hz. split; [lia|]. intros _. split.
+          -- apply added_mono. apply (a_sub _ _ _ HA). exact Em.
+          -- rewrite reg_of_snoc. simpl. apply sp_remove_gone. exact Ex.
+        * rewrite Nat.add_0_r. split; [exact H1|]. intros Hp.
+          apply (gone_step tr s _ _ h0 Hrun Hst'). auto.
+      + apply (gone_step tr s _ _ h0 Hrun Hst'). eapply Hlin; eauto.
+      + apply added_mono. apply Hpa. revert H. rewrite upd1_get.
+        destruct (h0 =? h) eqn:Eh; [apply N.eqb_eq in Eh; subst h0|]; lia.
+      + unfold deadlines. rewrite !cnt_snoc. simpl (is_end_true _ _). simpl (is_lin_add _ _).
+        specialize (Hpend h0 H). unfold deadlines in Hpend. simpl (is_tmprm _ _).
+        rewrite upd1_get. rewrite (N.eqb_sym h h0). destruct (h0 =? h) eqn:Eh.
+        * apply N.eqb_eq in Eh. subst h0. destruct (hd_deadline (decl h)); lia.
+        * destruct (hd_deadline (decl h0)); lia.
+    - (* AClose *)
+      unfold step in Hst. destruct (s_crashed s); [discriminate|].
+      destruct (Nat.ltb 0 (s_toclose s h)) eqn:Ep; [|discriminate]. apply Nat.ltb_lt in Ep.
+      inversion Hst; subst; clear Hst.
+      destruct HC as [Hcl Hrm Honce Hlin Hpa Hpend].
+      constructor; simpl; intros.
+      + rewrite cnt_snoc. simpl. rewrite upd1_get, (N.eqb_sym h h0).
+        pose proof (Hcl h0). pose proof (Hcl h).
+        destruct (h0 =? h) eqn:Eh; [apply N.eqb_eq in Eh; subst h0|]; lia.
+      + rewrite rm_ok_snoc. simpl. specialize (Hrm h0). rewrite !upd1_get.
+        destruct (h0 =? h) eqn:Eh; [apply N.eqb_eq in Eh; subst h0|]; lia.
+      + rewrite rm_ok_snoc. simpl. rewrite Nat.add_0_r. destruct (Honce h0) as [H1 H2].
+        split; [exact H1|]. intros Hp. apply (gone_step tr s _ _ h0 Hrun Hst'). auto.
+      + apply (gone_step tr s _ _ h0 Hrun Hst'). eapply Hlin; eauto.
+      + apply added_mono. auto.
+      + unfold deadlines. rewrite !cnt_snoc. simpl. specialize (Hpend h0 H).
+        unfold deadlines in Hpend. destruct (hd_deadline (decl h0)); lia.
+  Qed.
+
+  Lemma invC_run tr s : exec sc (init sc) tr = Some s -> InvC sc tr s.
+  Proof.
+    revert tr s. apply run_ind; [apply invC_init|].
+    intros tr s a s' Hrun HC Hst. eapply invC_step; eauto.
+  Qed.
+End InvC.
